@@ -270,6 +270,12 @@ class Expr:
                 return f"(negb {self.boolean(args[0])})", "bool"
             if n in ("square",) and len(args) == 1:
                 return f"(xpow2 {self.num(args[0])})", "num"
+            if n in ("zeros_like", "ones_like") and len(args) == 1 and [k.arg for k in e.keywords] == ["dtype"] \
+                    and src(e.keywords[0].value) in ("float", "np.float64", "numpy.float64"):
+                # a float constant in the shape of the argument: 0 / 1 in every cell, also where the argument is NaN or infinite
+                # (only with an explicit float dtype: in an integer storage dtype later arithmetic could truncate or wrap)
+                self.num(args[0])       # the argument itself must be a translatable numeric expression (fail closed)
+                return qlit(0 if n == "zeros_like" else 1), "num"
             raise Unsupported("call " + src(e))
         if isinstance(f, ast.Attribute):
             recv = f.value
